@@ -147,6 +147,8 @@ class Recorder:
         self.l2u = {}
         self.b2u = {}
         self.unknown = {}
+        self.xfin = {}       # x bytes -> did the USER's likelihood return a finite value there
+        self.inf_evals = 0   # number of -inf / non-finite returns of the user's likelihood
         self.evals = 0
         self.traces = []  # finalised traces (dict cfg/events/meta)
         self._ev = None  # raw events of the run in progress
@@ -187,6 +189,10 @@ class Recorder:
         return prior_transform
 
     def _reg_like(self, x, logl, blob):
+        fin = bool(np.isfinite(logl))
+        self.xfin[_row(x)] = fin
+        if not fin:
+            self.inf_evals += 1
         ids = self.x2u.get(_row(x), None)
         if not ids:
             ids = {0}
@@ -244,7 +250,8 @@ class Recorder:
             b = blobs[i] if (self.have_blobs and blobs is not None) else None
             ids = self.rec_ids(u[i], x[i], logl[i], b)
             lab = int(labs[i]) if labs is not None else 0
-            out.append(ids + [lab, 1 if np.isfinite(logl[i]) else 0])
+            fin = bool(np.isfinite(logl[i])) and self.xfin.get(_row(x[i]), True)
+            out.append(ids + [lab, 1 if fin else 0])
         return out
 
     def cur_slots(self, state):
@@ -521,6 +528,7 @@ class Recorder:
     def _on_resampled(self, r):
         self._emit("Resample", slots=self.cur_slots(r["core"].state))
         self._mut_mark = self.evals
+        self._inf_mark = self.inf_evals
 
     def _on_prior_batch(self, r):
         logl = np.asarray(r["logl"], dtype=float)
@@ -566,6 +574,10 @@ class Recorder:
         if beta == 0.0:
             n, a = self._prior_batch if self._prior_batch else (len(slots), len(slots))
             self._prior_batch = None
+            # the number of zero-likelihood draws is what the USER's function returned (not what reached the mutator)
+            d_ev, d_inf = self.evals - self._mut_mark, self.inf_evals - getattr(self, "_inf_mark", self.inf_evals)
+            if d_ev > 0:
+                n, a = d_ev, d_ev - d_inf
             self._warm.append((n, a))
             logz = float(st.get_current("logz"))
             fr = [np.log(ai / ni) if ai > 0 else -np.inf for ni, ai in self._warm]
